@@ -444,6 +444,17 @@ def plan(tier):
     }
 
 
+
+def OPT_UNITS(tier):
+    """Units repeated in an interpreter started with -O (validation must
+    not live in assert statements or __debug__ blocks)."""
+    us = plan(tier)['units']
+    keep = []
+    for kind, n in [('perturb', 17), ('cut', 20)]:
+        keep += [u for u in us if str(u[0]) == kind][:n]
+    return keep
+
+
 def run_unit(unit, tier):
     acc = Acc()
     if unit[0] in ('huge-cut', 'huge-perturb'):
